@@ -948,3 +948,74 @@ func noSharedUnsafeStdlibObjects(c *core.Ctx) {
 	}
 	c.Stat("package_variables", n)
 }
+
+// setIPAcceptsTheEnd (C18-R10): the position "one past the last instruction"
+// is a valid instruction pointer — it is where the REPL parks the VM after a
+// failed piece so that the rest of that piece never runs.  If SetIP checks its
+// argument against the instruction count at all, the comparison admits equality.
+func setIPAcceptsTheEnd(c *core.Ctx) {
+	p := c.P
+	vmT := core.MustType(p.Pkg("vm"), "VirtualMachine")
+	ipF := fieldByName(vmT, "ip")
+	n := 0
+	for _, m := range core.Methods(vmT) {
+		sf := p.SSAFunc(m)
+		if sf == nil || sf.Blocks == nil || !m.Exported() || len(sf.Params) != 2 || !isIntegerType(sf.Params[1].Type()) {
+			continue
+		}
+		// stores its int parameter into vm.ip
+		prm := sf.Params[1]
+		sets := false
+		for _, b := range sf.Blocks {
+			for _, in := range b.Instrs {
+				if st, ok := in.(*ssa.Store); ok && st.Val == ssa.Value(prm) {
+					if fa, ok := st.Addr.(*ssa.FieldAddr); ok && fieldVar(fa) == ipF {
+						sets = true
+					}
+				}
+			}
+		}
+		if !sets {
+			continue
+		}
+		n++
+		bad := ""
+		for _, b := range sf.Blocks {
+			for _, in := range b.Instrs {
+				bo, ok := in.(*ssa.BinOp)
+				if !ok {
+					continue
+				}
+				isCount := func(v ssa.Value) bool {
+					return core.DependsOn(v, func(w ssa.Value) bool {
+						if call, ok := w.(*ssa.Call); ok {
+							if cal := call.Call.StaticCallee(); cal != nil && (cal.Name() == "InstructionCount") {
+								return true
+							}
+							if bi, ok := call.Call.Value.(*ssa.Builtin); ok && bi.Name() == "len" {
+								return true
+							}
+						}
+						return false
+					}) || func() bool {
+						call, ok := v.(*ssa.Call)
+						if !ok {
+							return false
+						}
+						cal := call.Call.StaticCallee()
+						return cal != nil && cal.Name() == "InstructionCount"
+					}()
+				}
+				// value >= count  or  count <= value refuse the end position
+				if (bo.Op == token.GEQ && bo.X == ssa.Value(prm) && isCount(bo.Y)) || (bo.Op == token.LEQ && bo.Y == ssa.Value(prm) && isCount(bo.X)) {
+					bad = p.Pos(bo.Pos())
+				}
+			}
+		}
+		c.Check(bad == "", "vm.VirtualMachine."+m.Name()+"|end-position-accepted", p.Pos(sf.Pos()),
+			m.Name()+" accepts the position just past the last instruction"+ifs(bad != "", "; the comparison at "+bad+" refuses it"))
+	}
+	if n == 0 {
+		core.Undecidedf("no exported VirtualMachine method stores an int parameter into ip")
+	}
+}
